@@ -122,6 +122,7 @@ func runDetCase(c *detCase) (sig, msg, outcome string) {
 		lss = c.LSS
 	}
 	decoy := ""
+	decoyPart := 3
 	psize := (c.Size + lss - 1) / lss * lss
 	var dev *memdev.Dev
 	part := 0
@@ -137,6 +138,9 @@ func runDetCase(c *detCase) (sig, msg, outcome string) {
 		}
 		if c.Placement == "gpt134" {
 			pstart = 4 << 20
+		}
+		if c.Placement == "gptrepart" {
+			pstart = 3 << 20
 		}
 		total := pstart + psize + 1<<20
 		dev = memdev.New(total)
@@ -163,10 +167,22 @@ func runDetCase(c *detCase) (sig, msg, outcome string) {
 				t.Partitions = append(t.Partitions,
 					&gpt.Partition{Index: 1, Start: uint64((1 << 20) / lss), End: uint64((1<<20+256<<10)/lss) - 1, Type: gpt.LinuxFilesystem, Name: "one", GUID: partGUID(1)},
 					&gpt.Partition{Index: 3, Start: uint64((2 << 20) / lss), End: uint64((3<<20)/lss) - 1, Type: gpt.LinuxFilesystem, Name: "three", GUID: partGUID(3)})
+			} else if c.Placement == "gptrepart" {
+				// the disk is first partitioned with ONE partition (which receives a filesystem of another type); a later session
+				// opens the disk, reads the table, adds the target partition as number 2 and writes the table back
+				part = 2
+				decoyPart = 1
+				decoy = "fat12"
+				if c.Type == "fat12" || lss != 512 {
+					decoy = "fat32"
+				}
+				t.Partitions = append(t.Partitions, &gpt.Partition{Index: 1, Start: uint64((1 << 20) / lss), End: uint64((2<<20)/lss) - 1, Type: gpt.LinuxFilesystem, Name: "one", GUID: partGUID(1)})
 			} else {
 				part = 1
 			}
-			t.Partitions = append(t.Partitions, &gpt.Partition{Index: part, Start: uint64(pstart / lss), End: uint64((pstart+psize)/lss) - 1, Type: gpt.LinuxFilesystem, Name: "target", GUID: partGUID(9)})
+			if c.Placement != "gptrepart" {
+				t.Partitions = append(t.Partitions, &gpt.Partition{Index: part, Start: uint64(pstart / lss), End: uint64((pstart+psize)/lss) - 1, Type: gpt.LinuxFilesystem, Name: "target", GUID: partGUID(9)})
+			}
 			err = t.Write(dev, total)
 			callerTable = t
 		}
@@ -225,8 +241,25 @@ func runDetCase(c *detCase) (sig, msg, outcome string) {
 	}
 	if decoy != "" {
 		var derr error
-		if pm := guard(func() { _, derr = createFS(dk, decoy, 3, "DECOY") }); pm != "" || derr != nil {
+		if pm := guard(func() { _, derr = createFS(dk, decoy, decoyPart, "DECOY") }); pm != "" || derr != nil {
 			return "", "", "n/a"
+		}
+	}
+	if c.Placement == "gptrepart" {
+		// a new session on the same bytes: read the table, add partition 2, write it back through Disk.Partition
+		dk, _ = openDetDiskLSS(dev, lss, false)
+		tb, terr := dk.GetPartitionTable()
+		g, ok := tb.(*gpt.Table)
+		if terr != nil || !ok {
+			return "", "", "n/a"
+		}
+		g.Partitions = append(g.Partitions, &gpt.Partition{Index: 2, Start: uint64(pstart / lss), End: uint64((pstart+psize)/lss) - 1, Type: gpt.LinuxFilesystem, Name: "target", GUID: partGUID(9)})
+		var perr error
+		if pm := guard(func() { perr = dk.Partition(g) }); pm != "" {
+			return "repartition|" + pm, "Disk.Partition with a table read from the disk and extended panicked: " + pm, "panic"
+		}
+		if perr != nil {
+			return "", "", "refused:" + errShape(perr.Error())
 		}
 	}
 	var cerr error
@@ -255,11 +288,11 @@ func runDetCase(c *detCase) (sig, msg, outcome string) {
 	if decoy != "" {
 		var dfs filesystem.FileSystem
 		var derr error
-		if pm := guard(func() { dfs, derr = fresh.GetFilesystem(3) }); pm != "" {
+		if pm := guard(func() { dfs, derr = fresh.GetFilesystem(decoyPart) }); pm != "" {
 			return "detect|" + tag + "|decoy|" + pm, pm, "panic"
 		}
 		if derr != nil || dfs.Type() != fsTypes[decoy] {
-			return "detect|" + tag + "|neighbour-partition", fmt.Sprintf("partition 3 of a GPT with slots 1,3,4 holds %s but is returned as %v (%v)", decoy, dfs, derr), "bad"
+			return "detect|" + tag + "|neighbour-partition", fmt.Sprintf("partition %d (%s) holds %s but is returned as %v (%v)", decoyPart, c.Placement, decoy, dfs, derr), "bad"
 		}
 	}
 	var fs filesystem.FileSystem
@@ -375,6 +408,7 @@ func enumC12(quick bool) []detCase {
 	// GPT with an empty slot before the target (slots 1, 3, 4) and a decoy of another type in partition 3
 	for _, ty := range types {
 		cs = append(cs, detCase{Type: ty, Size: sizes[ty][0], Placement: "gpt134", Label: "LBL"})
+		cs = append(cs, detCase{Type: ty, Size: sizes[ty][0], Placement: "gptrepart", Label: "LBL"})
 	}
 	// 4096-byte logical sectors (FAT32 is the writable type that supports them; squashfs always uses them here)
 	for _, pl := range []string{"whole", "gpt1", "mbr1", "gpt134"} {
@@ -411,6 +445,6 @@ func C12(r *ev.Run) {
 	r.Set("evaluations", int64(done))
 	r.Set("distinct_nontrivial", int64(ok.n()))
 	r.Set("distinct_outcomes", outcomes.snapshot())
-	r.Set("rule", "cross product: type {fat12,fat16,fat32,ext4,iso9660,squashfs} x sizes (each type's small/medium sizes; every sector count 8234..8250 around the 4085-cluster threshold of fat16; 16 MiB-k*4 KiB and 128 MiB-k*2 KiB sweeps around the 4085 / 65525 cluster thresholds as the Create tables produce them; thorough: more table boundaries, 600 MiB ext4) x placement {whole disk, GPT partition 1, GPT partition 3, MBR partition 1} x label {empty, 1 char, 11 chars} x previous occupant of the range {none, each other type}; blank ranges in every placement. Each case: disk.CreateFilesystem (+Finalize), then a FRESH disk.Disk on the same bytes: GetPartitionTable().Type(), GetFilesystem(n).Type(), Label(), probe file. non-trivial = distinct cases that Create accepted and that were detected and compared")
+	r.Set("rule", "cross product: type {fat12,fat16,fat32,ext4,iso9660,squashfs} x sizes (each type's small/medium sizes; every sector count 8234..8250 around the 4085-cluster threshold of fat16; 16 MiB-k*4 KiB and 128 MiB-k*2 KiB sweeps around the 4085 / 65525 cluster thresholds as the Create tables produce them; thorough: more table boundaries, 600 MiB ext4) x placement {whole disk, GPT partition 1, GPT partition 3, GPT slots 1,3,4 with a decoy neighbour, a GPT partition added by a later session that re-reads and extends the table, MBR partition 1} x label {empty, 1 char, 11 chars} x previous occupant of the range {none, each other type}; blank ranges in every placement. Each case: disk.CreateFilesystem (+Finalize), then a FRESH disk.Disk on the same bytes: GetPartitionTable().Type(), GetFilesystem(n).Type(), Label(), probe file. non-trivial = distinct cases that Create accepted and that were detected and compared")
 	r.Set("exhaustive", done == len(cases))
 }
